@@ -81,6 +81,10 @@ func (r *pfbReader) Read(b []byte) (n int, err error) {
 			}
 			k, err = io.ReadFull(r.r, b[:k])
 			r.len -= int64(k)
+			if err == io.EOF {
+				// the segment is shorter than its header says
+				err = io.ErrUnexpectedEOF
+			}
 			if err != nil {
 				return n, err
 			}
